@@ -13,6 +13,9 @@ def run_seed(sid, tier="quick"):
     subprocess.run(["git", "-C", "/repo", "worktree", "add", "--detach", wt, "HEAD"], stdout=subprocess.DEVNULL, stderr=subprocess.DEVNULL, check=True)
     try:
         r = subprocess.run(["git", "-C", wt, "apply", os.path.join(d, "patch.diff")], stdout=subprocess.PIPE, stderr=subprocess.STDOUT, text=True)
+        if r.returncode != 0 and os.path.exists(os.path.join(d, "patch.rebased.diff")):
+            # the original patch was made against the pinned commit; "fix:" commits since then moved its context
+            r = subprocess.run(["git", "-C", wt, "apply", os.path.join(d, "patch.rebased.diff")], stdout=subprocess.PIPE, stderr=subprocess.STDOUT, text=True)
         if r.returncode != 0:
             return {"seed": sid, "property": prop, "result": "patch-does-not-apply", "detail": r.stdout[-300:]}
         env = dict(os.environ, VERIF_REPO=wt, VERIF_JOBS=os.environ.get("SEED_JOBS", "6"))
